@@ -279,10 +279,28 @@ protected:
       core::BufferView view(localBuffer.data() + offset,
                             localBuffer.size() - offset);
       std::size_t consumed = 0;
-      auto frame = WebSocketFrame::parse(view, consumed);
+      WsParseStatus status = WsParseStatus::Ok;
+      auto frame = WebSocketFrame::parse(view, consumed, status, _maxFrameSize);
 
       if (!frame)
       {
+        if (status == WsParseStatus::ProtocolError || status == WsParseStatus::TooLarge)
+        {
+          // The header can never become an acceptable frame: fail the connection
+          // (RFC 6455 7.1.7) instead of waiting and buffering without bound.
+          const bool tooLarge = (status == WsParseStatus::TooLarge);
+          sendClose(sid, tooLarge ? 1009 : 1002, tooLarge ? "Message Too Big" : "Protocol error");
+          if (_onError)
+          {
+            _onError(sid, tooLarge ? "Frame exceeded maxFrameSize" : "WebSocket protocol error");
+          }
+          {
+            std::lock_guard<std::mutex> lock(_wsMutex);
+            _sessions.erase(sid);
+          }
+          closeSession(sid);
+          return; // nothing is put back
+        }
         break;
       }
 
